@@ -100,6 +100,16 @@ CHECKS = {
          "Exhaustive for 2+2 events over keys {a,b,none}, 3-4 timestamps, W=1; 4+4 events over 3 keys by TLC simulation and recorded "
          "traces; whole-second windows; inner join only; TLC and the harness projection are trusted.",
          "TLA+ interleaving spec checked by TLC; state-graph replay on the real node (all merges); trace validation of recorded eviction histories"),
+ "C06": ("model_checking",
+         "TLC checks the ideal ReteWM model (a firing is enabled only for a live fact satisfying the rule at that moment; a fire_all "
+         "that leaves working memory unchanged fires exactly the owed no-loop rules once). Histories recorded from the real "
+         "IncrementalEngine - every firing logged from inside the action together with the working-memory view the engine passes in, "
+         "all four working-memory views after every call - are validated event by event by TLC against Trace_ReteWM.tla.",
+         "DESIGN.md §4 C06",
+         "4-rule table of integer threshold conditions over up to 6 facts of 3 types; per-history action effects none / modify / "
+         "retract; exactness clause scoped as stated in the evidence assumptions (runs with only no-loop firings; types untouched "
+         "since reset unconstrained); only recorded executions are validated; TLC and the recorder are trusted.",
+         "TLA+ ideal spec checked by TLC; trace validation of executions recorded from the real engine (state bound to the logged working-memory view)"),
 }
 
 NOT_YET = "check not built yet in this round (see DESIGN.md §9 build order); no claim is made"
